@@ -39,7 +39,18 @@ META["C02"] = {
     "technique": "explicit-state BFS over operation sequences + exhaustive interleaving enumeration under a controlled scheduler, both on the implementation",
 }
 
-ENGINE_OF = {"C09": "sched", "C08": "seq", "C02": "seq+sched"}
+META["C04"] = {
+    "level": "model_checking",
+    "rule": "sequential: per rule set (thresholds 0,1,2,3,2^32-1; one or two rules on a resource in both orders; a second resource) BFS over all histories of Entry(resource, batch in {1,2,N,N+1,2^31,2^32-2,2^32-1}) and Exit of any live entry (<=4 live) to the depth bound; every decision, TriggeredRule/Value and the in-flight gauge are compared with an unbounded-integer reference; concurrent: ALL interleavings of 2-3 callers x 1-2 entries at admission-path granularity (points at request start, between check and statistic phase, before each exit), entries exited at once or held to the end; distinct outcome = configuration + decision vector + peak in-flight",
+    "assumptions": [A_CLOCK, A_OVERLAY],
+    "budget_quick": 60,
+    "budget_thorough": 600,
+    "text": "Explicit-state exploration of entry/exit histories through the real api.Entry against an exact in-flight reference, and exhaustive admission-path interleavings of k callers with the N+(k-1) bound and decision-by-gauge-at-check oracle.",
+    "level_note": "Bounded depth (7 quick / 9 thorough), at most 4 live entries, 2 resources; admission-path granularity for the concurrent clause as the property states.",
+    "technique": "explicit-state BFS over operation sequences + exhaustive interleaving enumeration under a controlled scheduler, on the implementation",
+}
+
+ENGINE_OF = {"C09": "sched", "C08": "seq", "C02": "seq+sched", "C04": "seq+sched"}
 
 # properties not claimed, with the reason (kept current)
 NOT_APPLICABLE = {}
